@@ -34,6 +34,8 @@ func checkC18(r *core.Run) {
 	c18Ports(r, prog)
 	c18Roles(r, prog)
 	c18Modules(r, prog)
+	c18DeclCond(r, prog)
+	c18ListClose(r, prog)
 	// K
 	e := newIKEngine(r, prog, "C18")
 	e.run([]string{"pkg/bondmachine", "pkg/procbuilder"}, func(pk *packages.Package, fd *ast.FuncDecl) bool {
